@@ -146,7 +146,13 @@ def tlc_schedules(report, rng, tier):
         G0, _ = cfg_proj(g)
         for n_tok in (2, 3):
             iid = len(insts)
-            insts.append(extract_instance(iid, srn, parser, g, G0, ["b"] * n_tok))
+            try:
+                insts.append(extract_instance(iid, srn, parser, g, G0, ["b"] * n_tok))
+            except (AttributeError, KeyError, TypeError) as ex:
+                # the parser object no longer exposes order / ORDER_MAX / cfg as the model expects: the model-driven
+                # schedules cannot be produced (the tie-break enumeration on the code itself still runs)
+                report.extra["tlc_schedules_unavailable"] = f"{type(ex).__name__}: {ex}"[:200]
+                return []
             meta[iid] = (srn, parser, G0, ["b"] * n_tok)
     d = fresh("einst")
     f = d / "inst.ndjson"
